@@ -776,6 +776,65 @@ def quirks(ctx):
                     r.check("C01.10", got == exp, key, f.where, "%s -> %s; the standard says %s" % (key, got, exp), {"case": key})
 
 
+# ---------------------------------------------------------------------------- C01.11 reprocess requests are not lost
+def return_propagation(ctx):
+    """A handler asks mainLoop to reprocess the token by returning it.  When a handler delegates its own token to another
+    handler and discards the result, no callee reachable for the token names that can arrive here may return the token --
+    otherwise the reprocess request is lost and the token disappears from the tree."""
+    r = ctx.r
+    pm = model(ctx)
+    nodes, edges, sites, ents = graph(ctx)
+    memo = {}
+
+    def may_return_token(f, name, depth=0):
+        key = (f.fq, name)
+        if key in memo:
+            return memo[key]
+        memo[key] = False
+        if depth > 6 or f.cls is None or not f.cls.is_subclass_of(pm.Phase) or len(f.params()) < 2:
+            return False
+        tok = f.params()[1]
+        lt = pm.local_types(f)
+        out = False
+        for n in walk_no_nested(f.node):
+            if isinstance(n, ast.Return) and n.value is not None:
+                if isinstance(n.value, ast.Name) and n.value.id == tok:
+                    out = True
+                elif isinstance(n.value, ast.Call):
+                    a0 = n.value.args[0] if n.value.args else None
+                    if isinstance(a0, ast.Name) and a0.id == tok:
+                        for g, gn in pm.resolve_call(f, n.value, name, lt, pm.phase_refinements(f)):
+                            if g is not None and may_return_token(g, gn if gn not in (None,) else name, depth + 1):
+                                out = True
+        memo[key] = out
+        return out
+    n_sites = 0
+    for (fq, name), (f, _) in sorted(nodes.items(), key=lambda kv: (kv[0][0], str(kv[0][1]))):
+        if f.cls is None or not f.cls.is_subclass_of(pm.Phase) or len(f.params()) < 2 or name in (None, ANY):
+            continue
+        tok = f.params()[1]
+        lt = pm.local_types(f)
+        for st in walk_no_nested(f.node):
+            call = None
+            if isinstance(st, ast.Expr) and isinstance(st.value, ast.Call):
+                call = st.value
+            if call is None or not (call.args and isinstance(call.args[0], ast.Name) and call.args[0].id == tok):
+                continue
+            if not (isinstance(call.func, ast.Attribute) and (call.func.attr.startswith("process") or call.func.attr.startswith("startTag")
+                                                              or call.func.attr.startswith("endTag"))):
+                continue
+            n_sites += 1
+            losers = sorted({g.qual for g, gn in pm.resolve_call(f, call, name, lt, pm.phase_refinements(f))
+                             if g is not None and may_return_token(g, gn if gn is not None else name)})
+            label = "<any other>" if name == FRESH else name
+            r.check("C01.11", not losers, "reprocess-lost::%s::%s" % (f.qual, label), "%s:%d" % (PARSER_REL, st.lineno),
+                    "%s delegates the <%s> token with `%s` and discards the result, but %s can return the token for "
+                    "reprocessing: the request is lost and the element never gets inserted" % (f.qual, label, norm(call)[:60], losers),
+                    {"handler": f.qual, "name": label, "callees": losers}, detail={"handler": f.qual, "name": label})
+    if n_sites < 50:
+        raise AnalysisError("C01.11 matched %d discarded delegations" % n_sites)
+
+
 # ---------------------------------------------------------------------------- C01.4 / C02.7
 STANDARD_CONTENT_MODEL = {
     "title": {("rcdata", "always")}, "textarea": {("rcdata", "always")},
@@ -999,6 +1058,7 @@ def run(ctx):
     r.rule("C01.8", "first-match searches over the stack / formatting list run in the standard's direction", floor=12)
     r.rule("C01.9", "tree construction dispatcher (insertion mode vs foreign content) and integration-point predicates equal the standard's", floor=120)
     r.rule("C01.10", "quirks / limited-quirks decision equals the standard's for representative DOCTYPE tokens", floor=500)
+    r.rule("C01.11", "a delegation whose result is discarded cannot lose a reprocess request", floor=50)
     r.rule("C01.5", "evaluated element tables equal the transcribed WHATWG sets (entries marked either-way excepted)", floor=300)
     ambient(ctx)
     dispatch(ctx)
@@ -1010,6 +1070,7 @@ def run(ctx):
     search_direction(ctx)
     dispatcher(ctx)
     quirks(ctx)
+    return_propagation(ctx)
     standard_tables(ctx)
 
 
@@ -1069,6 +1130,8 @@ def mutants():
         T("quirks-system-missing", "html5parser.py", '                     "-//w3c//dtd html 4.01 transitional//")) and\n                systemId is None or', '                     "-//w3c//dtd html 4.01 transitional//")) and\n                systemId is not None or', "C01.10"),
         T("quirks-case-sensitive", "html5parser.py", "        if publicId != \"\":\n            publicId = publicId.translate(asciiUpper2Lower)\n", "", "C01.10"),
         T("quirks-prefix-typo", "html5parser.py", '"-//w3c//dtd html 3.2 final//",', '"-//w3c//dtd html 3.2 finale//",', "C01.10"),
+        T("reprocess-dropped-in-table", "html5parser.py", "        new_token = self.parser.phases[\"inBody\"].processStartTag(token)\n        self.tree.insertFromTable = False\n        return new_token",
+          "        self.parser.phases[\"inBody\"].processStartTag(token)\n        self.tree.insertFromTable = False", "C01.11"),
         T("scope-drop-td", "constants.py", '    (namespaces["html"], "td"),\n    (namespaces["html"], "th"),\n    (namespaces["mathml"], "mi"),',
           '    (namespaces["html"], "th"),\n    (namespaces["mathml"], "mi"),', "C01.5"),
         T("svg-attr-case", "constants.py", '"viewbox": "viewBox"', '"viewbox": "viewbox"', "C01.5"),
